@@ -19,9 +19,3 @@ Inductive constrains (vs : list (list Z)) (S : list Z) : nat -> Prop :=
 | constrains_direct : forall i, (i < length vs)%nat -> share (cvars vs i) S -> constrains vs S i
 | constrains_step : forall i j, (i < length vs)%nat -> constrains vs S j -> share (cvars vs i) (cvars vs j) ->
                                 constrains vs S i.
-
-(* the same, following only conditions that come EARLIER than the one they are related to *)
-Inductive constrains_back (vs : list (list Z)) (S : list Z) : nat -> Prop :=
-| cb_direct : forall i, (i < length vs)%nat -> share (cvars vs i) S -> constrains_back vs S i
-| cb_step : forall i j, (i < j)%nat -> constrains_back vs S j -> share (cvars vs i) (cvars vs j) ->
-                        constrains_back vs S i.
